@@ -19,7 +19,7 @@ use std::time::Duration;
 /// one vertex of the cube: index per switch
 #[derive(Clone, Copy, Debug, PartialEq, Eq, Hash, Serialize, Deserialize)]
 pub struct Vertex {
-    pub alloc: u8,    // 0 std, 1 ::alloc, 2 ::a::b
+    pub alloc: u8,    // 0 std, 1 ::alloc, 2 ::a::b, 3 crate::al (a path that is not global)
     pub docs: u8,     // 0 off, 1 on
     pub codec: u8,    // 0 off, 1 on
     pub root: u8,     // 0 types, 1 r, 2 p (the name of the crate the registry's types live in)
@@ -27,7 +27,7 @@ pub struct Vertex {
     pub bits: u8,     // 0 none, 1 set
     pub subst: u8,    // 0 none, 1 `p::a::G<T> -> ::ext::Static<T, ::ext::Inner<::ext::Deep<T>>>` (parameter at top level and nested)
 }
-const DIMS: [(&str, u8); 7] = [("alloc", 3), ("docs", 2), ("codec", 2), ("root", 3), ("compact", 2), ("bits", 2), ("subst", 2)];
+const DIMS: [(&str, u8); 7] = [("alloc", 4), ("docs", 2), ("codec", 2), ("root", 3), ("compact", 2), ("bits", 2), ("subst", 2)];
 
 impl Vertex {
     fn get(&self, d: usize) -> u8 {
@@ -49,7 +49,7 @@ impl Vertex {
     /// the sub-cube used for generic definitions: alloc {std, ::a::b} x docs x codec x root, compact and
     /// bits paths set, no substitute
     pub fn generic_subcube() -> Vec<Vertex> {
-        Vertex::all().into_iter().filter(|v| v.alloc != 1 && v.root != 1 && v.compact == 1 && v.bits == 1 && v.subst == 0).collect()
+        Vertex::all().into_iter().filter(|v| v.alloc != 1 && v.alloc != 3 && v.root != 1 && v.compact == 1 && v.bits == 1 && v.subst == 0).collect()
     }
     pub fn all() -> Vec<Vertex> {
         let mut v = vec![Vertex { alloc: 0, docs: 0, codec: 0, root: 0, compact: 0, bits: 0, subst: 0 }];
@@ -65,7 +65,7 @@ impl Vertex {
         v
     }
     fn alloc_prefix(&self) -> &'static str {
-        ["::std", "::alloc", "::a::b"][self.alloc as usize]
+        ["::std", "::alloc", "::a::b", "crate::al"][self.alloc as usize]
     }
     fn root_name(&self) -> &'static str {
         ["types", "r", "p"][self.root as usize]
@@ -75,7 +75,8 @@ impl Vertex {
         s.alloc = match self.alloc {
             0 => None,
             1 => Some("::alloc".into()),
-            _ => Some("::a::b".into()),
+            2 => Some("::a::b".into()),
+            _ => Some("crate::al".into()),
         };
         s.docs = self.docs == 1;
         s.codec_attrs = self.codec == 1;
